@@ -50,4 +50,13 @@ PROPS = {
         'explanation': 'exhaustive ground evaluation: every index entry, every map file, every node of every shipped map, loaded through the real loader '
                        'under /venv/bin/python; finite configuration, no universally quantified claim beyond it',
     },
+    'C18': {
+        'level': 'other',
+        'functions': [],
+        'crosscheck': False,
+        'frames': {'rules': ('global-write', 'modconst-mut', 'default-mut', 'nondet', 'hash-order', 'reflection', 'cache-decorator'),
+                   'allow': 'ALLOW_C18', 'replay': {'hash-order': 'frames_replay.py'}},
+        'explanation': 'modifies-frame / determinism obligations over every function of the package (tests, scripts, examples excluded), discharged by a '
+                       'conservative syntactic analysis of the real AST; one obligation per (rule, module); a finding outside the reasoned allow-list refutes it',
+    },
 }
